@@ -20,13 +20,15 @@ Ltac wf :=
   | |- WFk _ (EProp _ _ _) => apply WF_prop; wf
   | |- WFk _ (EArray _) => apply WF_array; wf
   | |- WFk _ (EObject _) => apply WF_object; wf
-  | |- Forall _ _ => repeat (apply Forall_cons; [wf|]); apply Forall_nil
-  | |- NoDup _ => repeat (apply NoDup_cons; [cbn; intuition discriminate|]); apply NoDup_nil
+  | |- Forall _ _ => cbn [map snd]; repeat (apply Forall_cons; [wf|]); apply Forall_nil
+  | |- NoDup _ => cbn [map fst]; repeat (apply NoDup_cons; [cbn; intuition discriminate|]); apply NoDup_nil
   end.
 
-Definition one := f_of_Z 1.
-Definition two := f_of_Z 2.
-Definition three := f_of_Z 3.
+(* three doubles, kept opaque so that [vm_compute] does not normalise Flocq's
+   validity proofs inside them *)
+Definition one : f64. Proof. exact (f_of_Z 1). Qed.
+Definition two : f64. Proof. exact (f_of_Z 2). Qed.
+Definition three : f64. Proof. exact (f_of_Z 3). Qed.
 Definition num (v : f64) := ELit (LitNum v) 0%N.
 Definition var (n : N) := EId [n] 0%N.
 Definition toks (s : list tsym) : list token := map (tok_of_sym 0%N) s.
